@@ -939,7 +939,7 @@ def run(ctx):
     for cid in list(meta)[:2] + [c for c in meta if c.startswith("F7")][:1]:
         stream, ex = meta[cid]
         ctx.sample({"case": cid, "ops": [op for _, op, _ in ex.steps][:12], "last_obs": {k: v for k, v in ex.steps[-1][2].items() if k != "ids"}})
-    res = common.coq_cases(ctx, "hist", HEADER, cases, per_file=max(4, len(cases) // 32), timeout=1500, case_timeout=300)
+    res = common.coq_cases(ctx, "hist", HEADER, cases, per_file=max(4, len(cases) // 96), timeout=3000, case_timeout=600)
     bad = [cid for cid, _, _ in cases if res[cid] != "OK"]
     if bad:
         exprs = []
